@@ -792,3 +792,59 @@ def rf112(run, units=None):
     if n < 3:
         raise F.AnalysisBroken('RF112: only %d printer functions found' % n)
     return n
+
+
+# ---------------------------------------------------------------------------------------------
+# RF139: integer-to-floating conversions name the signedness of their source
+# ---------------------------------------------------------------------------------------------
+
+def rf139(run):
+    import re
+    from lib import printexec as PE
+    from lib import regions as R
+    rule = 'RF139'
+    run.rule(rule, 'mir2c out_insn: an integer source operand can be a memory operand of any type, so its C type may be unsigned.  The '
+                   'text printed for I2F / I2D / I2LD casts the source to (int64_t) and the text for UI2F / UI2D / UI2LD to (uint64_t) '
+                   'before the floating-point cast (case regions executed abstractly with the operand printer as a placeholder); '
+                   '`i2d x, u64:(p)` of -2 otherwise converts 1.8e19')
+    tu = run.tu('mir2c')
+    f = tu.func('out_insn')
+    run.functions_analysed.add(('mir2c', f.name))
+    sws = R.find_switches(f, lambda c: c.replace(' ', '').endswith('code'))
+    if not sws:
+        raise F.AnalysisBroken('out_insn: switch on the opcode not found')
+    regs = R.switch_regions(f, max(sws, key=lambda s_: sum(1 for _ in F.walk(s_))))
+    codes = dict(tu.enum('MIR_insn_code_t'))
+    n = 0
+    for nm, want in (('MIR_I2F', 'int64_t'), ('MIR_I2D', 'int64_t'), ('MIR_I2LD', 'int64_t'),
+                     ('MIR_UI2F', 'uint64_t'), ('MIR_UI2D', 'uint64_t'), ('MIR_UI2LD', 'uint64_t')):
+        idx = [i for i, r in enumerate(regs) if nm in [c[0] for c in r['cases']]]
+        if not idx:
+            raise F.AnalysisBroken('out_insn: no case for %s' % nm)
+        stmts = []
+        j = idx[0]
+        while True:
+            stmts += regs[j]['stmts']
+            if regs[j]['falls_into'] is None:
+                break
+            j = regs[j]['falls_into']
+        ex = PE.PrintExec(tu, {}, {}, {'out_op': lambda a, e, x: '$'})
+        ex.exec_unit_calls = True
+        ex.concrete_ints = True
+        env = {'insn->code': codes[nm], 'code': codes[nm]}
+        try:
+            for st in stmts:
+                r_ = ex.run(st, env)
+                if r_ in ('break', 'return'):
+                    break
+        except F.AnalysisBroken as e_:
+            raise F.AnalysisBroken('out_insn (%s): %s' % (nm, e_))
+        txt = ' '.join(ex.text().split())
+        ok = re.search(r'\(%s\)\s*\$\s*;' % want, txt) is not None
+        n += 1
+        run.ob(rule, (nm,), ok, {'opcode': nm, 'text': txt, 'source cast': want})
+        if not ok:
+            run.violation(rule, f, 'source of %s' % nm, 'the C text for %s is `%s`: the source is not cast to (%s), so a memory operand of the '
+                          'other signedness (`i2d x, u64:(p)`) is converted with the signedness of its C type instead of the one the opcode '
+                          'names' % (nm, txt, want), line=stmts[0]['l'] if stmts else f.line)
+    return n
